@@ -52,8 +52,14 @@ fn render(specs: &[&LcSpec]) -> (Rendered, Vec<String>) {
     let mut pos = vec![];
     let mut contents = vec![];
     let mut line = 1usize;
+    // one spelling of `=` per rendered file, drawn from its first block: a file may hold no compact `line-count=` at all
+    let eq = match specs.first().map(|s| (s.lines + s.expr.len()) % 5) {
+        Some(1) => " = ",
+        Some(2) => " =",
+        _ => "=",
+    };
     for (i, s) in specs.iter().enumerate() {
-        let tag = format!("<block name=\"b{i}\" line-count={}>", quote_attr(&s.expr));
+        let tag = format!("<block name{eq}\"b{i}\" line-count{eq}{}>", quote_attr(&s.expr));
         let mut body: Vec<String> = (0..s.lines).map(|k| format!("x{k};")).collect();
         if s.layout == Layout::Nested {
             let mid = body.len() / 2;
@@ -245,7 +251,7 @@ pub fn random_batch() -> BoxedStrategy<LcBatch> {
 }
 
 pub fn run(run: &mut Run) {
-    run.rule = "enumerated: the full grid operator(5) x spacing(4) x N(0..6) x written line count(0..7) x blank-line placement(5: none/first/last/middle/around, alternating empty and whitespace-only) x layout(5: own-line tags, content starting on the tag's line, fully inline, both tags in one comment, nested block inside) restricted to expressible combinations; random: large N (incl. 2^64-1) and blocks up to 400 lines. Non-trivial block = count within 1 of N, or blank lines present, or a non-standard layout; distinct by (batch, block).".into();
+    run.rule = "every rendered file spells `name=value` in one of three ways (`=`, ` = `, ` =`), drawn from its first block. enumerated: the full grid operator(5) x spacing(4) x N(0..6) x written line count(0..7) x blank-line placement(5: none/first/last/middle/around, alternating empty and whitespace-only) x layout(5: own-line tags, content starting on the tag's line, fully inline, both tags in one comment, nested block inside) restricted to expressible combinations; random: large N (incl. 2^64-1) and blocks up to 400 lines. Non-trivial block = count within 1 of N, or blank lines present, or a non-standard layout; distinct by (batch, block).".into();
     run.assumptions = vec!["content lines are JavaScript expression statements `xK;`; counts are cross-checked between construction and the content text".into()];
     run.enumerate("grid", enumerated(400), Some("operator x spacing x N in 0..6 x count in 0..7 x blank placement x layout"), check_batch);
     run.random("large", run.tier.pick(600, 12000), random_batch, check_batch);
